@@ -79,37 +79,54 @@ func c19Less(cmp string) func(a, b SRec) bool {
 	panic("cmp " + cmp)
 }
 
+// c19Add appends one descriptor to a builder (the builder methods return the extended builder)
+func c19Add(b fpgo.SortDescriptorsBuilder[SRec], d c19Desc) fpgo.SortDescriptorsBuilder[SRec] {
+	field := map[string]string{"k1": "1", "k2": "2", "k3": "3"}[d.Key]
+	if d.Ty == "ordered" {
+		field = "K" + field
+	} else {
+		field = "S" + field
+	}
+	if d.Via == "field" {
+		return b.ThenWithFieldName(field, d.Asc)
+	}
+	return b.ThenWithTransformerFunctor(func(r SRec) fpgo.Comparable[interface{}] {
+		switch field {
+		case "K1":
+			return r.K1
+		case "K2":
+			return r.K2
+		case "K3":
+			return r.K3
+		case "S1":
+			return r.S1
+		case "S2":
+			return r.S2
+		}
+		return r.S3
+	}, d.Asc)
+}
+
+// The stack is built as  prefix.Then(last)  and then TWO MORE stacks are derived from the same prefix builder (the last
+// descriptor with the opposite direction, and a different key): builders derived from a common prefix are independent, so the
+// stack returned here must still sort by its own descriptors.
 func c19Builder(ds []c19Desc) fpgo.SortDescriptorsBuilder[SRec] {
 	b := fpgo.NewSortDescriptorsBuilder[SRec]()
-	for _, d := range ds {
-		d := d
-		field := map[string]string{"k1": "1", "k2": "2", "k3": "3"}[d.Key]
-		if d.Ty == "ordered" {
-			field = "K" + field
-		} else {
-			field = "S" + field
-		}
-		if d.Via == "field" {
-			b = b.ThenWithFieldName(field, d.Asc)
-			continue
-		}
-		b = b.ThenWithTransformerFunctor(func(r SRec) fpgo.Comparable[interface{}] {
-			switch field {
-			case "K1":
-				return r.K1
-			case "K2":
-				return r.K2
-			case "K3":
-				return r.K3
-			case "S1":
-				return r.S1
-			case "S2":
-				return r.S2
-			}
-			return r.S3
-		}, d.Asc)
+	if len(ds) == 0 {
+		return b
 	}
-	return b
+	for _, d := range ds[:len(ds)-1] {
+		b = c19Add(b, d)
+	}
+	last := ds[len(ds)-1]
+	s1 := c19Add(b, last)
+	flipped := last
+	flipped.Asc = !last.Asc
+	_ = c19Add(b, flipped)
+	other := last
+	other.Key = map[string]string{"k1": "k2", "k2": "k3", "k3": "k1"}[last.Key]
+	_ = c19Add(b, other)
+	return s1
 }
 
 func c19Exec(c *c19Case) (l c19Line) {
